@@ -44,7 +44,7 @@ EXPLANATION = (
     "path chains a Z3 fallback and is_valid maps unsat/sat/unknown of the negation to TRUE/FALSE/UNKNOWN; (R3) no IndexError / "
     "ZeroDivisionError / TypeError(ord) / negative-index wraparound in any fast-path constructor; (R4) regex source fragments "
     "compose (quantified slots grouped, class-body slots escaped); (R5) membership uses a DOTALL full match; (R6) each "
-    "handler's body implements the operator its guard names, in Z3's child order. NOT decided: numeric agreement with Z3 "
+    "handler's body implements the operator its guard names, in Z3's child order; (R7) no verdict cache is keyed by the printed (lossy) form of a Z3 term. NOT decided: numeric agreement with Z3 "
     "for every value (rounding of real division, str.to.int of non-numerals), Z3's own verdicts."
 )
 
@@ -244,10 +244,17 @@ def rule_r2(ctx):
 
     # is_valid: verdict mapping
     isv = ctx.repo.func(Z3H, "is_valid", "C05.R2")
+    zmod = module_of(isv)
+    # the verdict logic may sit in is_valid itself or in a module-level helper it delegates to (inlining bound 1)
+    scopes = [isv] + [zmod.get(call_name(c)) for c in calls_in(isv) if isinstance(zmod.get(call_name(c) or ""), ast.FunctionDef) and (call_name(c) or "").lstrip("_").startswith("is_valid")]
     solve = None
-    for n in ast.walk(isv):
-        if isinstance(n, ast.FunctionDef) and n is not isv and any(call_name(c) == "z3_solve" for c in calls_in(n)):
-            solve = n
+    for scope in scopes:
+        for n in ast.walk(scope):
+            if isinstance(n, ast.FunctionDef) and n is not scope and any(call_name(c) == "z3_solve" for c in calls_in(n)):
+                solve = n
+                isv_logic = scope
+    if solve is not None:
+        isv = isv_logic
     if solve is None:
         raise Unrecognised("C05.R2-z3-mapping", f"{Z3H}:is_valid", "nested function calling z3_solve not found")
     zc = [c for c in calls_in(solve) if call_name(c) == "z3_solve"][0]
@@ -323,86 +330,121 @@ def rule_r3(ctx):
                     continue
                 raise Unrecognised("C05.R3", f"{Z3H}:{name}", f"constructor {src(ctor)} not understood")
             construct = f"{Z3H}:{name}"
-            found_effect = False
-            for body in ctor_body_exprs(ctor):
-                for node in ast.walk(body):
-                    # --- subscripts
-                    if isinstance(node, ast.Subscript) and isinstance(node.ctx, ast.Load):
-                        base = strip_casts(node.value)
-                        if isinstance(base, ast.Name) and base.id == p and isinstance(node.slice, ast.Constant):
-                            continue  # args[k]: tuple index, operator arity
-                        if isinstance(base, ast.Call) and call_name(base) == "expr.params":
-                            continue
-                        if not _refs_param(node, p):
-                            continue
-                        ft = _facts_text(node, ctor)
-                        found_effect = True
-                        if isinstance(node.slice, ast.Slice):
-                            lo = nsrc(node.slice.lower) if node.slice.lower is not None else None
-                            hi = nsrc(node.slice.upper) if node.slice.upper is not None else None
-                            need = []
-                            if lo is not None and not isinstance(strip_casts(node.slice.lower), ast.Constant):
-                                need.append(f"{lo} >= 0")
-                            if hi is not None and lo is not None and hi.startswith(lo + " + "):
-                                d = hi[len(lo) + 3 :]
-                                if not d.isdigit():
-                                    need.append(f"{d} > 0")
-                            elif hi is not None and not isinstance(strip_casts(node.slice.upper), ast.Constant):
-                                need.append(f"{hi} >= 0")
-                            missing = [x for x in need if (x, True) not in ft and (x.replace(" > 0", " >= 0"), True) not in ft]
-                            ctx.check(not missing, "R3-wraparound", construct, nsrc(node), site(node),
-                                      f"slice bounds come from SMT integers; without {missing} a negative value wraps around (Python) where SMT-LIB yields the empty string",
-                                      f"slice guarded by {need}")
-                        else:
-                            idx = nsrc(node.slice)
-                            guarded = any(pos and (t.startswith(f"0 <= {idx} < len(") or t == f"{idx} < len({nsrc(node.value)})") for t, pos in ft)
-                            guarded = guarded or _in_try_catching(node, ("IndexError", "LookupError"), ctor)
-                            ctx.check(guarded, "R3-may-raise", construct, f"IndexError: {nsrc(node)}", site(node),
-                                      "indexing a string with an SMT integer raises IndexError when out of range (SMT-LIB: empty string); no bounds guard or handler dominates it",
-                                      "index guarded")
-                    # --- division
-                    if isinstance(node, ast.BinOp) and isinstance(node.op, (ast.Div, ast.FloorDiv, ast.Mod)):
-                        if isinstance(node.left, ast.Constant) and isinstance(node.left.value, str):
-                            continue  # string formatting
-                        if not _refs_param(node.right, p):
-                            continue
-                        found_effect = True
-                        ft = _facts_text(node, ctor)
-                        d = nsrc(node.right)
-                        inner = d
-                        m = _re.fullmatch(r"(?:abs|float|int)\((.*)\)", d)
-                        if m:
-                            inner = m.group(1)
-                        guarded = any((t in (f"{d} == 0", f"{inner} == 0") and not pos) or (t in (f"{d} != 0", f"{inner} != 0") and pos) for t, pos in ft)
-                        guarded = guarded or _in_try_catching(node, ("ZeroDivisionError", "ArithmeticError"), ctor)
-                        ctx.check(guarded, "R3-may-raise", construct, f"ZeroDivisionError: {nsrc(node)}", site(node),
-                                  "a zero divisor raises ZeroDivisionError out of the fast path instead of being answered (Z3 treats division by zero as an uninterpreted value)",
-                                  "divisor guarded")
-                    # --- ord
-                    if isinstance(node, ast.Call) and call_name(node) == "ord" and node.args:
-                        found_effect = True
-                        a = nsrc(node.args[0])
-                        ft = _facts_text(node, ctor)
-                        guarded = (f"len({a}) == 1", True) in ft or _in_try_catching(node, ("TypeError",), ctor)
-                        ctx.check(guarded, "R3-may-raise", construct, f"TypeError: {nsrc(node)}", site(node),
-                                  "ord() raises TypeError unless the string has exactly one character (SMT-LIB str.to_code: -1)", "guarded by len == 1")
-                    # --- int()/float() of a str
-                    if isinstance(node, ast.Call) and call_name(node) in ("int",) and node.args and isinstance(strip_casts(node.args[0]), ast.Name):
-                        # int(c) where c is a plain child value: ValueError for non-numerals
-                        found_effect = True
-                        guarded = _in_try_catching(node, ("ValueError",), ctor)
-                        ctx.check(guarded, "R3-may-raise", construct, f"ValueError: {nsrc(node)}", site(node),
-                                  "int() of a child string raises ValueError for non-numerals and no handler converts it", "ValueError handled")
-                    if isinstance(node, ast.Raise):
-                        exc = call_name(node.exc) if isinstance(node.exc, ast.Call) else dotted(node.exc) if node.exc else None
-                        found_effect = True
-                        ctx.check(exc == "DomainError", "R3-may-raise", construct, f"raise {exc}", site(node),
-                                  f"constructor raises {exc}; only DomainError (non-numeral str.to.int, excluded by the property) is accepted", "DomainError is the documented exclusion")
+            found_effect = scan_effects(ctx, module, construct, ctor_body_exprs(ctor), {p}, ctor, p, 0, set())
             if not found_effect:
                 ctx.ok("R3-may-raise", construct, f"constructor {nsrc(ctor)[:60]}", site(call), "no raising construct in the constructor")
             n += 1
     if n < 25:
         raise Unrecognised("C05.R3", f"{Z3H}:evaluate_z3_expression", f"only {n} constructors analysed (expected >= 25)")
+
+
+def scan_effects(ctx, module, construct, bodies, tainted, stop, tuple_param, depth, seen) -> bool:
+    """May-raise / wraparound effects of expressions over SMT values.  `tainted` = names holding SMT-derived values;
+    `tuple_param` = the constructor's children tuple (constant index into it is operator arity, not a string index).
+    Calls to helper functions defined in the same module are followed (inlining bound 2)."""
+    found_effect = False
+
+    def refs(node):
+        return any(isinstance(n, ast.Name) and n.id in tainted for n in ast.walk(node))
+
+    for body in bodies:
+        for node in ast.walk(body):
+            # --- subscripts
+            if isinstance(node, ast.Subscript) and isinstance(node.ctx, ast.Load):
+                base = strip_casts(node.value)
+                if isinstance(base, ast.Name) and base.id == tuple_param and isinstance(node.slice, ast.Constant):
+                    continue  # args[k]: tuple index, operator arity
+                if isinstance(base, ast.Call) and call_name(base) == "expr.params":
+                    continue
+                if not refs(node):
+                    continue
+                ft = _facts_text(node, stop)
+                found_effect = True
+                if isinstance(node.slice, ast.Slice):
+                    lo = nsrc(node.slice.lower) if node.slice.lower is not None else None
+                    hi = nsrc(node.slice.upper) if node.slice.upper is not None else None
+                    need = []
+                    if lo is not None and not isinstance(strip_casts(node.slice.lower), ast.Constant):
+                        need.append(f"{lo} >= 0")
+                    if hi is not None and lo is not None and hi.startswith(lo + " + "):
+                        d = hi[len(lo) + 3 :]
+                        if not d.isdigit():
+                            need.append(f"{d} > 0")
+                    elif hi is not None and not isinstance(strip_casts(node.slice.upper), ast.Constant):
+                        need.append(f"{hi} >= 0")
+
+                    def have(x):
+                        alts = {x, x.replace(" > 0", " >= 0")}
+                        m = _re.fullmatch(r"(.+) >= 0", x)
+                        if m:
+                            alts |= {f"0 <= {m.group(1)}"}
+                        m = _re.fullmatch(r"(.+) > 0", x)
+                        if m:
+                            alts |= {f"0 < {m.group(1)}", f"{m.group(1)} >= 1"}
+                            # `length <= 0` known false
+                            if (f"{m.group(1)} <= 0", False) in ft:
+                                return True
+                        m = _re.fullmatch(r"(.+) >= 0", x)
+                        if m and (f"{m.group(1)} < 0", False) in ft:
+                            return True
+                        return any((a, True) in ft for a in alts) or any(pos and t.startswith(f"0 <= {x.split(' ')[0]} <") for t, pos in ft)
+
+                    missing = [x for x in need if not have(x)]
+                    ctx.check(not missing, "R3-wraparound", construct, nsrc(node), site(node),
+                              f"slice bounds come from SMT integers; without {missing} a negative value wraps around (Python) where SMT-LIB yields the empty string",
+                              f"slice guarded by {need}")
+                else:
+                    idx = nsrc(node.slice)
+                    guarded = any(pos and (t.startswith(f"0 <= {idx} < len(") or t == f"{idx} < len({nsrc(node.value)})") for t, pos in ft)
+                    guarded = guarded or _in_try_catching(node, ("IndexError", "LookupError"), stop)
+                    ctx.check(guarded, "R3-may-raise", construct, f"IndexError: {nsrc(node)}", site(node),
+                              "indexing a string with an SMT integer raises IndexError when out of range (SMT-LIB: empty string); no bounds guard or handler dominates it",
+                              "index guarded")
+            # --- division
+            if isinstance(node, ast.BinOp) and isinstance(node.op, (ast.Div, ast.FloorDiv, ast.Mod)):
+                if isinstance(node.left, ast.Constant) and isinstance(node.left.value, str):
+                    continue  # string formatting
+                if not refs(node.right):
+                    continue
+                found_effect = True
+                ft = _facts_text(node, stop)
+                d = nsrc(node.right)
+                inner = d
+                m = _re.fullmatch(r"(?:abs|float|int)\((.*)\)", d)
+                if m:
+                    inner = m.group(1)
+                guarded = any((t in (f"{d} == 0", f"{inner} == 0") and not pos) or (t in (f"{d} != 0", f"{inner} != 0") and pos) for t, pos in ft)
+                guarded = guarded or _in_try_catching(node, ("ZeroDivisionError", "ArithmeticError"), stop)
+                ctx.check(guarded, "R3-may-raise", construct, f"ZeroDivisionError: {nsrc(node)}", site(node),
+                          "a zero divisor raises ZeroDivisionError out of the fast path instead of being answered (Z3 treats division by zero as an uninterpreted value)",
+                          "divisor guarded")
+            # --- ord
+            if isinstance(node, ast.Call) and call_name(node) == "ord" and node.args:
+                found_effect = True
+                a = nsrc(node.args[0])
+                ft = _facts_text(node, stop)
+                guarded = (f"len({a}) == 1", True) in ft or _in_try_catching(node, ("TypeError",), stop)
+                ctx.check(guarded, "R3-may-raise", construct, f"TypeError: {nsrc(node)}", site(node),
+                          "ord() raises TypeError unless the string has exactly one character (SMT-LIB str.to_code: -1)", "guarded by len == 1")
+            # --- int()/float() of a str
+            if isinstance(node, ast.Call) and call_name(node) in ("int",) and node.args and isinstance(strip_casts(node.args[0]), ast.Name) and depth == 0:
+                found_effect = True
+                guarded = _in_try_catching(node, ("ValueError",), stop)
+                ctx.check(guarded, "R3-may-raise", construct, f"ValueError: {nsrc(node)}", site(node),
+                          "int() of a child string raises ValueError for non-numerals and no handler converts it", "ValueError handled")
+            if isinstance(node, ast.Raise):
+                exc = call_name(node.exc) if isinstance(node.exc, ast.Call) else dotted(node.exc) if node.exc else None
+                found_effect = True
+                ctx.check(exc == "DomainError", "R3-may-raise", construct, f"raise {exc}", site(node),
+                          f"constructor raises {exc}; only DomainError (non-numeral str.to.int, excluded by the property) is accepted", "DomainError is the documented exclusion")
+            # --- helper functions of the same module: follow (the effect does not disappear by moving it into a helper)
+            if isinstance(node, ast.Call) and isinstance(node.func, ast.Name) and depth < 2:
+                callee = module.get(node.func.id)
+                if isinstance(callee, ast.FunctionDef) and callee.name not in seen and any(refs(a) for a in node.args) and callee.name not in ("evaluate_z3_expression", "construct_result"):
+                    params = {a.arg for a in callee.args.args}
+                    sub = scan_effects(ctx, module, f"{construct}->{callee.name}", list(callee.body), params, callee, None, depth + 1, seen | {callee.name})
+                    found_effect = found_effect or sub
+    return found_effect
 
 
 _cache = {}
@@ -763,8 +805,61 @@ def _binop_family(body: str, expected) -> Optional[str]:
     return None
 
 
+def rule_r7(ctx):
+    """Verdict caches must not be keyed by the *printed* form of a Z3 expression (the printer elides deep / wide terms)."""
+    n = 0
+    for rel in (Z3H, EVAL, LANG):
+        m = ctx.repo.module(rel, "C05.R7")
+        module_names = set(m.constants())
+        for q, fn in m.functions():
+            z3_params = {a.arg for a in fn.args.args if a.annotation is not None and "z3." in src(a.annotation)}
+            if not z3_params:
+                continue
+            # local names assigned from str(<z3 param>) / repr(..) / f-strings over it
+            lossy = set()
+            for node in walk_local(fn):
+                if isinstance(node, ast.Assign) and len(node.targets) == 1 and isinstance(node.targets[0], ast.Name) and _lossy_print(node.value, z3_params, lossy):
+                    lossy.add(node.targets[0].id)
+            for node in walk_local(fn):
+                key = None
+                if isinstance(node, ast.Subscript) and isinstance(node.value, ast.Name) and node.value.id in module_names:
+                    key = node.slice
+                elif isinstance(node, ast.Call) and isinstance(node.func, ast.Attribute) and node.func.attr in ("get", "setdefault", "pop") and isinstance(node.func.value, ast.Name) and node.func.value.id in module_names and node.args:
+                    key = node.args[0]
+                if key is None:
+                    continue
+                n += 1
+                bad = _lossy_print(key, z3_params, lossy)
+                ctx.check(not bad, "R7-lossy-cache-key", f"{rel}:{q}", f"{src(node)[:60]}", site(node),
+                          "a module-level cache of verdicts is keyed by the printed form (str()/repr()) of a Z3 expression; Z3's pretty printer replaces sub-terms beyond "
+                          "depth 20 / 128 arguments by '...', so two different formulas share a key and the second one gets the first one's verdict",
+                          "key is not a printed Z3 term")
+    ctx.inventory["module_level_cache_accesses_in_verdict_functions"] = n
+    # positive fixture
+    fx = ast.parse("C = {}\ndef f(formula: z3.BoolRef, t: int):\n    k = (str(formula), t)\n    return C.get(k)\n")
+    fn = fx.body[1]
+    lossy = set()
+    for node in ast.walk(fn):
+        if isinstance(node, ast.Assign) and _lossy_print(node.value, {"formula"}, lossy):
+            lossy.add(node.targets[0].id)
+    if "k" not in lossy:
+        raise Unrecognised("C05.R7", "fixture", "positive fixture did not fire")
+
+
+def _lossy_print(e: ast.AST, z3_params, lossy_names) -> bool:
+    for x in ast.walk(e):
+        if isinstance(x, ast.Call) and call_name(x) in ("str", "repr") and x.args and any(isinstance(y, ast.Name) and y.id in z3_params for y in ast.walk(x.args[0])):
+            return True
+        if isinstance(x, ast.FormattedValue) and any(isinstance(y, ast.Name) and y.id in z3_params for y in ast.walk(x.value)):
+            return True
+        if isinstance(x, ast.Name) and x.id in lossy_names:
+            return True
+    return False
+
+
 def run(ctx) -> str:
     _cache.clear()
+    ctx.guarded("R7", lambda: rule_r7(ctx))
     ctx.guarded("R1", lambda: rule_r1(ctx))
     ctx.guarded("R2", lambda: rule_r2(ctx))
     ctx.guarded("R3", lambda: rule_r3(ctx))
